@@ -293,3 +293,10 @@ MUTANTS += [
     dict(id="c11-pathof-revert-overflow-fix", prop="C11", file="bmtree/newpath.go", old="if int64(frombit)+int64(height) > math.MaxInt32 {", new="if int64(frombit)+int64(height) > math.MaxInt32 && height < 0 {",
          note="reverts 13898b7: frombit+height wraps in int32 at the top of a 2^28-byte string (regression case regress/C11/last/pathof-end-bit-beyond-maxint32.json)"),
 ]
+
+# After the second soundness pass (DESIGN.md 10.10) results that share memory with EACH OTHER or with a never-written constant
+# are accepted (a property-preserving variant does exactly that): these edits are controls now.
+for _m in MUTANTS:
+    if _m["id"] in ("c09-r2-new-shared-empty", "c09-r2-new-memo-last-call", "c17-r2-results-adjacent-in-arena"):
+        _m["equivalent"] = True
+        _m["note"] = (_m.get("note") or "") + " [control since the relaxation: results sharing memory with each other / a never-written constant are accepted]"
